@@ -1,0 +1,30 @@
+/*
+Verification hooks. Compiled out unless RANDOMX_VERIF is defined.
+
+RANDOMX_VERIF_YIELD(site) marks a point inside a long-running library
+operation at which a deterministic simulator may park the calling thread
+and run another one. With the guard off it expands to nothing.
+*/
+
+#pragma once
+
+#if defined(RANDOMX_VERIF)
+#ifdef __cplusplus
+extern "C" {
+#endif
+void randomx_verif_yield(int site);
+#ifdef __cplusplus
+}
+#endif
+#define RANDOMX_VERIF_YIELD(site) randomx_verif_yield(site)
+#else
+#define RANDOMX_VERIF_YIELD(site) ((void)0)
+#endif
+
+/* site identifiers */
+#define RANDOMX_VERIF_SITE_HASH_CHAIN      1  /* between chained programs of one hash */
+#define RANDOMX_VERIF_SITE_DATASET_SPLIT   2  /* between the two partial calls of randomx_init_dataset */
+#define RANDOMX_VERIF_SITE_DATASET_ITEM    3  /* after each item computed by initDatasetItem */
+#define RANDOMX_VERIF_SITE_CACHE_ARGON     4  /* after the Argon2 fill in initCache */
+#define RANDOMX_VERIF_SITE_CACHE_SSH       5  /* per SuperscalarHash program in initCache */
+#define RANDOMX_VERIF_SITE_INTERP_ITER     6  /* per loop iteration of InterpretedVm::execute */
